@@ -29,9 +29,16 @@ def bv(v, bits=64):
 
 
 def bm_bases(ctx):
-    b0 = ctx.sandbox_base(32, "b0")
-    b1 = ctx.sandbox_base(32, "b1")
-    ctx.assume(b0 != b1)
+    b0, b1 = bm_two_bases(ctx)
+    return b0, b1
+
+
+def bm_two_bases(ctx):
+    """two disjoint 4 GiB regions at page-aligned (not size-aligned) bases"""
+    b0 = ctx.sandbox_base(32, "b0", aligned=False)
+    b1 = ctx.sandbox_base(32, "b1", aligned=False)
+    sz = BV(1 << 32, 64)
+    ctx.assume(z3.Or(z3.UGE(b0, b1 + sz), z3.UGE(b1, b0 + sz)))
     return b0, b1
 
 
